@@ -25,6 +25,35 @@ CHECKS = {
              "counter of dropped transitions must be 0.",
         note="Same trusted base as C01; hook SEANDST_ACETIME_VERIF (add-only counter).",
         design="2/C02"),
+    "C07": dict(
+        technique="generated wall times (complete transition neighbourhoods + seeded random) vs occurrence-set oracle derived from zic",
+        text="Every zone of zonedbx and zonedb x every wall minute within +-200 min of every transition, every second within "
+             "+-61 s of every gap/overlap edge (thorough: +-1 h), all Dec 31/Jan 1 wall minutes, and 500 (thorough 5,000) "
+             "seed-drawn wall times per zone: ~1e8 resolutions per run. Expected result computed from the set of real "
+             "occurrences {t : t+utoff(t)=w} of the zic oracle; checks non-error, normalisation, identity when unique, "
+             "later occurrence (Extended) / any occurrence (Basic) in overlaps, pre-gap offset in gaps.",
+        note="Same oracle trust as C01/C02; wall times limited to 2000-01-03..2049-12-29.",
+        design="2/C07"),
+    "C08": dict(
+        technique="Hypothesis rule-based state machine + exhaustive two-step histories, fresh-instance differential oracle, ASan/UBSan",
+        text="History independence: (1) exhaustive enumeration, per sampled zone (thorough: every zone), of every ordered pair of "
+             "years 1998..2051 x every ordered pair of query kinds as a two-step history on one processor plus A;B;A zone "
+             "interleavings (5.9e6 histories quick); (2) a Hypothesis RuleBasedStateMachine over shared processors, managers "
+             "with cache size 1..4 holding 2..8 zones, creation by name/id/index/info, queries incl. out-of-range/sentinel, "
+             "repeat-last and alternate rules, on an ASan+UBSan build. Every answer is compared with the same query on a "
+             "brand-new processor; failures are collected, bucketed and minimised by delta debugging into replayable op lists.",
+        note="Oracle is the fresh instance (tied to zic by C01/C02/C07). Instants within 1932..2067 + sentinel. Python "
+             "ZoneSpecifier history independence is exercised in C04.",
+        design="2/C08"),
+    "C10": dict(
+        technique="enumerated registries x enumerated/generated queries vs linear-scan reference model, ASan/UBSan + hang timeout",
+        text="Registries of size 0..40 (sorted prefix/tail/subset, shuffled, first/last pair swapped) and the two full registries "
+             "of each database; queries: all present names/ids/indices, an absent name in every gap, below/above the ends, "
+             "prefixes, extensions, id+-1, 0, 0xFFFFFFFF, indices beyond the end, plus Hypothesis-drawn byte strings; through "
+             "indexForZoneName/Id and createForZoneName/Id/Index. Exact agreement with a linear scan; 1 s per-lookup hang bound; "
+             "sanitizers report reads outside the registry.",
+        note="No duplicate entries are generated; sizes above 40 only via the full registries.",
+        design="2/C10"),
     "C06": dict(
         technique="exhaustive enumeration + strided generation vs calendar oracle (datetime / days-from-civil differential)",
         text="Exhaustive enumeration of all 93,136 dates (plus all out-of-range component tuples in a surrounding "
